@@ -24,7 +24,7 @@ def main():
         with open(spec_path) as f:
             spec = json.load(f)
         out = Collector(spec)
-        sys.setrecursionlimit(20000)
+        sys.setrecursionlimit(6000)
         with warnings.catch_warnings():
             warnings.simplefilter('ignore')
             from .viol import Violation, innermost_dd_frame
@@ -45,8 +45,6 @@ def main():
                 out.fail('shard.' + v.what,
                          dict(kind='__shard__', spec=todo or spec),
                          v.detail, innermost_dd_frame(v))
-            except RecursionError:
-                raise
             except Exception as e:
                 fr = innermost_dd_frame(e)
                 if fr == 'harness':
